@@ -261,7 +261,7 @@ func runInheritance(c *Ctx) {
 	// the argument must be opts.InheritWheelchairBoarding at every call site
 	nSites := 0
 	for _, e := range p.Callers(fn) {
-		if e.Site == nil {
+		if false {
 			continue
 		}
 		nSites++
@@ -272,7 +272,7 @@ func runInheritance(c *Ctx) {
 				ok = true
 			}
 		}
-		c.Check(ok, "INH", shortName(e.Caller.Func), "option passed to parseStops", p.ipos(e.Site), "the flag is opts.InheritWheelchairBoarding", "parseStops is not called with opts.InheritWheelchairBoarding as its inheritance flag")
+		c.Check(ok, "INH", shortName(e.Caller), "option passed to parseStops", p.ipos(e.Site), "the flag is opts.InheritWheelchairBoarding", "parseStops is not called with opts.InheritWheelchairBoarding as its inheritance flag")
 	}
 	if nSites == 0 {
 		c.Undecided("INH", fname, "call sites", p.pos(fn.Pos()), "no call site of parseStops found")
